@@ -205,6 +205,38 @@ def affine_functions(repo, outdir):
     write(os.path.join(outdir, "AffineGen.lean"), "\n".join(out))
     return len(AFFINE_FNS)
 
+RECT = "geo-types/src/geometry/rect.rs"
+RECT_STRUCTS = {"Coord": ("Pt.mk", ["x", "y"]), "Self": ("SM.RectS.mk", ["min", "max"])}
+RECT_FNS = [
+    (r"pub fn new<C>\(c1: C, c2: C\) -> Self\s+where\s+C: Into<Coord<T>>,\s*\{", "rectNew", "(c1 c2 : Pt)", "SM.RectS",
+     {}, [], [(r"([a-z0-9]+)\.into\b", r"\1")]),
+    (r"fn has_valid_bounds\(&self\) -> bool \{", "rectHasValidBounds", "(self_ : SM.RectS)", "Bool", {},
+     [("self.min", "self_.mn"), ("self.max", "self_.mx")], []),
+    (r"pub fn width\(self\) -> T \{", "rectWidth", "(self_ : SM.RectS)", "Rat", {},
+     [("self.max", "self_.mx"), ("self.min", "self_.mn")], []),
+    (r"pub fn height\(self\) -> T \{", "rectHeight", "(self_ : SM.RectS)", "Rat", {},
+     [("self.max", "self_.mx"), ("self.min", "self_.mn")], []),
+    (r"pub fn center\(self\) -> Coord<T> \{", "rectCenter", "(self_ : SM.RectS)", "Pt", {},
+     [("self.max", "self_.mx"), ("self.min", "self_.mn")], []),
+]
+
+def rect_functions(repo, outdir):
+    """Gen/RectGen.lean: `Rect::{new, has_valid_bounds, width, height, center}` regenerated from geo-types."""
+    import rsexpr
+    src = strip_comments(open(os.path.join(repo, RECT)).read())
+    out = ["/- generated by translator/rs2lean.py (rsexpr) from %s; do not edit -/" % RECT,
+           "import GeoModel.PolygonSM", "", "namespace Geo.Gen", "open Geo", ""]
+    for (hdr, name, params, ret, funcs, subst, resub) in RECT_FNS:
+        try:
+            term = rsexpr.translate(src, hdr, {"T::one": "1", "T::zero": "0"}, funcs, subst, structs=RECT_STRUCTS, resub=resub)
+        except rsexpr.TranslateError as e:
+            die("%s (%s): %s" % (name, RECT, e))
+        out.append("/-- `Rect::%s` — %s -/" % (name, RECT))
+        out.append("def %s %s : %s :=\n  %s\n" % (name, params, ret, term))
+    out += ["end Geo.Gen", ""]
+    write(os.path.join(outdir, "RectGen.lean"), "\n".join(out))
+    return len(RECT_FNS)
+
 ENDPT = {"p.start": "p1", "p.end": "p2", "q.start": "q1", "q.end": "q2"}
 
 def collinear_table(repo, outdir):
@@ -304,7 +336,8 @@ def main():
     rows = collinear_table(repo, outdir)
     nk = kernel_functions(repo, outdir)
     na = affine_functions(repo, outdir)
-    print("rs2lean: wrote Masks.lean (%d predicates), Enums.lean (%d op rules), CollinearTable.lean (%d rows), Kernel.lean (%d functions), AffineGen.lean (%d functions)" % (len(fns), len(pairs), rows, nk, na))
+    nr = rect_functions(repo, outdir)
+    print("rs2lean: wrote Masks.lean (%d predicates), Enums.lean (%d op rules), CollinearTable.lean (%d rows), Kernel.lean (%d functions), AffineGen.lean (%d functions), RectGen.lean (%d functions)" % (len(fns), len(pairs), rows, nk, na, nr))
 
 if __name__ == "__main__":
     main()
